@@ -5,7 +5,8 @@ import Anysystem.Proofs.C11Congr
 import Anysystem.Proofs.StagedThms
 import Anysystem.Proofs.R5MainLemmas
 /-!
-# R5 — C04 end to end (partial: fault rates zero, no crash/recover after the snapshot, override-free program, exact time)
+# R5 — C04 end to end (partial: duplication and corruption rates zero — the DROP RATE IS ARBITRARY —, no crash/recover
+after the snapshot, override-free program, exact time)
 
 A simulation is stopped in state `q`; `ModelChecker::new` takes the snapshot `s₀` and an exploration from it (after
 `McStarted`, no callback) finishes `Ok`.  If the simulation is instead continued for `k` steps to `q'`, the process-visible
@@ -28,6 +29,13 @@ Changes with respect to the draft statements:
   `M := draws.length / (4 * k)` every handler call returns at most `M` actions, `4 * (k * M) ≤ draws.length`, and one step
   drops at most `4 * M` draws from the front of the stream, `sim_step_draws`).
 * `R5MainDemo`: non-vacuity, full instantiation on the demo state with a kernel-evaluated `Ok` search.
+
+Generalisation R6 (drop rate arbitrary): nothing changes in this file.  The restriction on the rates is part of
+`TimedRel` (`NetRel.ratesZero`, now `duplRate = zero ∧ corruptRate = zero`), and one simulator step is still matched by at
+most one reference step (`sim_step_refines_partial` keeps its conclusion: a send the simulator drops at random at send
+time leaves a *zombie* flight in the reference state, which needs no step and is never in the way — see `R4.lean`), hence
+by at most one expansion step of the checker.  `R6Demo.drop_covered` is the full instantiation with drop rate `⟨1⟩` on a
+run in which a send is dropped at random.
 -/
 namespace Anysystem
 
@@ -167,7 +175,7 @@ theorem snapshot_mode (bits : T → Nat) (q : Sim σ T) (s₀ : McSys σ) (hsnap
   · cases hsnap
     rfl
 
-/-- **C04, end to end (partial)** -/
+/-- **C04, end to end (partial: duplication and corruption rates zero, drop rate arbitrary)** -/
 theorem sim_run_covered_partial [LawfulTime T] [DecidableEq σ] (bits : T → Nat) (laws : SnapTimeLaws bits) (h : Handler σ)
     (p : Preds σ) (hp : KeyBased p) (hash : McSys.Key σ → Nat)
     -- the simulation so far: `q` is related to some reference state (it is a state of a run that started quiet) and well formed
